@@ -85,3 +85,8 @@ CORPUS += [
       "    def merge(self, other: CapabilitiesResponse) -> None:\n        # Add other's capabilities to ours\n        self._capabilities.update(other._capabilities)\n",
       "    def merge(self, *others: CapabilitiesResponse) -> None:\n        for other in others:\n            self._capabilities = {**self._capabilities, **other._capabilities}\n", "S"),
 ]
+# round 12: the supported-property set is rebuilt from the response
+CORPUS += [
+    M("supported-properties-partly-reset", "msmart/device/AC/device.py", "        self._supported_properties.clear()\n", "        self._supported_properties.difference_update(self._PROPERTY_MAP)\n"),
+    M("n-supported-properties-rebound", "msmart/device/AC/device.py", "        self._supported_properties.clear()\n", "        self._supported_properties = set()\n", "S"),
+]
